@@ -3,7 +3,10 @@
 from __future__ import annotations
 
 import ast
+import copy
 import itertools
+import re
+import typing as t
 
 from .. import astq
 from ..fold import Folder, RegexConst, classes_in, group_width
@@ -36,7 +39,10 @@ LEVEL_TEXT = (
     "local - bound before or between the ifs - standing for its defining expression, bool(X) / a walrus / True-if-X-else-False "
     "for X, negation flipping the side, so a test, a flag holding it and split or merged guards are the same thing; a "
     "condition that uses one of these verdicts other than by its truth is reported as not understood); "
-    "the 206 path by the Range / If-Range (ignore_if_range=False) gate; (R11.5) Content-Length, Content-Range, the "
+    "the 206 path by the Range / If-Range (ignore_if_range=False) gate; the arguments of is_resource_modified are checked at each "
+    "*use* - the call itself or the call of a private wrapper (method of the response, function of the package) that does "
+    "nothing but return its (negated) verdict, wrapper parameters replaced by what the use passes or their defaults - so the "
+    "304/412 decision must ignore If-Range and the 206 gate must evaluate it even when both go through one helper; (R11.5) Content-Length, Content-Range, the "
     "_RangeWrapper window and status 206 derive from one range_for_length / to_content_range_header pair of one parsed "
     "Range and one complete length, status is set before the wrap, the wrap passes (start, length) to (start_byte, "
     "byte_range); (R11.6) each None from the three range functions leads only to RequestedRangeNotSatisfiable and "
@@ -44,11 +50,17 @@ LEVEL_TEXT = (
     "by branch facts 0 <= S, S < T and T <= length on the returned values (inline or through is_byte_range_valid, whose "
     "own branch structure is enumerated), and by the bytes-unit, known-length and single-range tests; (R11.8) in "
     "_RangeWrapper the counter compared with the absolute end start_byte + byte_range is re-based to the body's absolute "
-    "position after every seek of the body. Decided on all paths of these functions; the rest of the byte arithmetic of "
+    "position after every seek of the body; (R11.9) parse_range_header as a whole function (item loop, the integer "
+    "helper it calls), evaluated statement by statement over constants by the Machine of _c06_helpers, returns None for "
+    "every string up to length 4 over {'-', '+', '0', '1'} that is not a range-spec `first-[last]` with last >= first or "
+    "`-suffix` (doubled, trailing and lone dashes, signs, digits without a dash), also next to a well-formed spec, and "
+    "exactly the denoted Range for those that are one (a finite family: longer specs, other characters, inner whitespace "
+    "and whether a zero suffix length is satisfiable are not decided). Decided on all paths of these functions; the rest of the byte arithmetic of "
     "_RangeWrapper (skipping to start on non-seekable bodies, trimming the first and last chunk for each chunking) is not decided."
 )
 TRUSTED = [
     "CPython ast",
+    "the Machine of _c06_helpers (R11.9): its reading of Python statements and expressions over constants, builtin str / int / re semantics; nothing of werkzeug is imported or run",
     "datetime semantics: replace(tzinfo=) relabels, astimezone() converts, aware datetimes compare by instant",
     "file objects: seek(x) positions the body at absolute offset x without reading, tell() returns the absolute position",
     "RFC 9110 13.1.1-13.1.5 / 14: weak comparison for If-None-Match, '*' admits any current representation, If-None-Match takes precedence over If-Modified-Since",
@@ -1205,10 +1217,120 @@ def _method(ctx: Ctx, cls: ClassInfo, name: str) -> FuncInfo:
     return m
 
 
-def _irm_args(ctx: Ctx, X: FA, call: ast.Call, want_ignore: bool) -> tuple[bool, str]:
+class IrmUse(t.NamedTuple):
+    """one *use* of http.is_resource_modified in a function: the expression whose truth is (the negation of) the
+    verdict, and the arguments the verdict is computed from *at this use* - written in the using function's own terms."""
+
+    site: ast.Call  # the expression in the using function: the call itself, or the call of a helper that wraps it
+    neg: int  # number of `not` between the helper's result and the call (0: the site is true iff modified)
+    args: dict[str, ast.AST]  # parameter of http.is_resource_modified -> argument expression (helper parameters replaced)
+    via: tuple[FuncInfo, ...]  # helpers the use goes through (outermost first)
+
+
+class _Subst(ast.NodeTransformer):
+    def __init__(self, env: dict[str, ast.AST]):
+        self.env = env
+
+    def visit_Name(self, n: ast.Name) -> ast.AST:
+        if isinstance(n.ctx, ast.Load) and n.id in self.env:
+            return copy.deepcopy(self.env[n.id])
+        return n
+
+    def visit_Lambda(self, n: ast.Lambda) -> ast.AST:
+        return n
+
+
+def _wrapped_call(e: ast.AST) -> tuple[ast.AST, int]:
+    """(X, n): the truth of e is the truth of X negated n times, by the form of the expression alone"""
+    n = 0
+    for _ in range(8):
+        e, k = H.strip_not(e)
+        n += k
+        tc = H.truth_core(e)
+        if tc is None:
+            break
+        e = tc[0]
+        n += 0 if tc[1] else 1
+    return e, n
+
+
+def _transparent_helper(fi: FuncInfo) -> tuple[ast.AST, dict[str, ast.AST]] | None:
+    """a helper whose whole effect is `return <expr>`: optional docstring, plain assignments that bind a local name
+    once, one return.  -> (returned expression, local name -> bound expression); None for any other body."""
+    body = list(fi.node.body)  # type: ignore[attr-defined]
+    if body and isinstance(body[0], ast.Expr) and isinstance(body[0].value, ast.Constant) and isinstance(body[0].value.value, str):
+        body = body[1:]
+    if not body or not isinstance(body[-1], ast.Return) or body[-1].value is None:
+        return None
+    local: dict[str, ast.AST] = {}
+    for s in body[:-1]:
+        if isinstance(s, ast.Assign) and len(s.targets) == 1 and isinstance(s.targets[0], ast.Name):
+            nm, val = s.targets[0].id, s.value
+        elif isinstance(s, ast.AnnAssign) and isinstance(s.target, ast.Name) and s.value is not None:
+            nm, val = s.target.id, s.value
+        else:
+            return None
+        if nm in local or nm in fi.params or any(isinstance(x, (ast.NamedExpr, ast.Yield, ast.YieldFrom, ast.Await)) for x in ast.walk(val)):
+            return None
+        local[nm] = _Subst(dict(local)).visit(copy.deepcopy(val))
+    if any(isinstance(x, (ast.NamedExpr, ast.Yield, ast.YieldFrom, ast.Await)) for x in ast.walk(body[-1].value)):
+        return None
+    return body[-1].value, local
+
+
+def _irm_use(ctx: Ctx, X: FA, e: ast.AST | None, depth: int = 0) -> IrmUse | None:
+    """`e` as a use of http.is_resource_modified: the call itself, or a call of a private helper (method of the same
+    object, function of the package) that does nothing but return the (negated) verdict of such a call.  The
+    arguments of the inner call are translated to the call site: a helper parameter stands for the argument passed
+    here (or its default), a helper local for the expression it was bound to - so every rule about "the arguments of
+    is_resource_modified" is a rule about each *use*, however many uses share one wrapper."""
+    if not isinstance(e, ast.Call) or depth > 3:
+        return None
+    repo = ctx.repo
+    if X.resolve(e.func) == WRAP:
+        return IrmUse(e, 0, H.bind(e, repo.func(WRAP), bound=False), ())
+    helper: FuncInfo | None = None
+    bound = False
+    recv: ast.AST | None = None
+    f = e.func
+    if isinstance(f, ast.Attribute) and isinstance(f.value, ast.Name) and X.fi.cls is not None and X.fi.params and f.value.id == X.fi.params[0]:
+        _o, m = repo.lookup(X.fi.cls, f.attr)
+        if isinstance(m, FuncInfo) and not m.decorators:
+            helper, bound, recv = m, True, f.value
+    elif isinstance(f, ast.Name):
+        helper = X.callee(e)
+        if helper is not None and (helper.cls is not None or helper.decorators):
+            helper = None
+    if helper is None or helper.fq == X.fi.fq:
+        return None
+    shape = _transparent_helper(helper)
+    if shape is None:
+        return None
+    ret, local = shape
+    inner_e, n = _wrapped_call(_Subst(local).visit(copy.deepcopy(ret)))
+    HX = FA(repo, helper)
+    inner = _irm_use(ctx, HX, inner_e, depth + 1)
+    if inner is None:
+        return None
+    ctx.saw(helper)
+    b = H.bind(e, helper, bound=bound)
+    env: dict[str, ast.AST] = {}
+    names = H.call_params(helper, bound) + [x.arg for x in helper.node.args.kwonlyargs]  # type: ignore[attr-defined]
+    for p in names:
+        v = b.get(p, H.param_default(helper, p))
+        if v is None:
+            raise AnalysisError(f"{X.fi.fq}: `{norm(e)}` does not pass `{p}` to {helper.fq}, which has no default for it")
+        env[p] = v
+    if bound and recv is not None and helper.params:
+        env[helper.params[0]] = recv
+    args = {p: ast.fix_missing_locations(_Subst(env).visit(copy.deepcopy(v))) for p, v in inner.args.items()}
+    return IrmUse(e, n + inner.neg, args, (helper,) + inner.via)
+
+
+def _irm_args(ctx: Ctx, X: FA, call: ast.Call | IrmUse, want_ignore: bool) -> tuple[bool, str]:
     """the is_resource_modified call compares against the response's own validators"""
     wrap = ctx.repo.func(WRAP)
-    b = H.bind(call, wrap, bound=False)
+    b = call.args if isinstance(call, IrmUse) else H.bind(call, wrap, bound=False)
     parts = []
     ok = True
     for p, hdr in (("etag", "etag"), ("last_modified", "last-modified")):
@@ -1222,6 +1344,8 @@ def _irm_args(ctx: Ctx, X: FA, call: ast.Call, want_ignore: bool) -> tuple[bool,
     good = isinstance(ig, ast.Constant) and ig.value is want_ignore
     ok = ok and good
     parts.append(f"ignore_if_range={norm(ig) if ig is not None else None}")
+    if isinstance(call, IrmUse) and call.via:
+        parts.append(f"at the use `{norm(call.site)[:60]}` (through {', '.join(h.name for h in call.via)})")
     return ok, ", ".join(parts)
 
 
@@ -1337,8 +1461,20 @@ def rule_4(ctx: Ctx) -> None:
     # expression / two-entry table choosing the status) expanded to what it tests - a flag local stands for its
     # defining expression wherever it was bound, bool(X) for X, `not` flips the side, a true conjunction gives each
     # member (H.expand_literal).  A literal is then recognised by what it is, not by where it is written.
+    uses: dict[int, IrmUse | None] = {}
+
+    def irm_use(e_: ast.AST) -> IrmUse | None:
+        """the literal as a use of is_resource_modified (the call, or a helper that returns its verdict)"""
+        if id(e_) not in uses:
+            uses[id(e_)] = _irm_use(ctx, M, e_)
+        return uses[id(e_)]
+
     def is_irm(e_: ast.AST) -> bool:
-        return isinstance(e_, ast.Call) and M.resolve(e_.func) == WRAP
+        return irm_use(e_) is not None
+
+    def says_unmodified(e_: ast.AST, l: str) -> bool:
+        u = irm_use(e_)
+        return u is not None and l == ("F" if u.neg % 2 == 0 else "T")
 
     is206 = {d.name for ds in M.rd.gen.values() for d in ds if d.value is not None and any(d.value is c for c in prc)}
 
@@ -1361,14 +1497,14 @@ def rule_4(ctx: Ctx) -> None:
     def about_if_match(x: ast.AST) -> bool:
         return (isinstance(x, ast.Constant) and x.value == "HTTP_IF_MATCH") or (isinstance(x, ast.Call) and M.resolve(x.func) == "werkzeug.http.parse_etags")
 
-    irm_calls = M.calls_to(WRAP)
-    if not irm_calls:
+    irm_uses = [u for c in sorted(astq.calls(mc.node, nested=False), key=lambda c: (c.lineno, c.col_offset)) for u in [irm_use(c)] if u is not None]
+    if not irm_uses:
         raise AnalysisError(f"{mc.fq}: no test on is_resource_modified(...)")
-    for call_ in irm_calls:
-        ok, fact = _irm_args(ctx, M, call_, True)
-        b = H.bind(call_, repo.func(WRAP), bound=False)
+    for u in irm_uses:
+        ok, fact = _irm_args(ctx, M, u, True)
+        b = u.args
         ok = ok and "environ" in b and norm(b["environ"]) == env_name
-        ctx.ob(R, "304/412 are decided against the response's own ETag and Last-Modified, If-Range not considered", ok, fact, mc, call_, "make_conditional is_resource_modified arguments")
+        ctx.ob(R, "304/412 are decided against the response's own ETag and Last-Modified, If-Range not considered", ok, fact, mc, u.site, "make_conditional is_resource_modified arguments")
 
     stores = [(s, code, extra) for s, code, extra in _status_stores_c(mc.node, M) if code in (304, 412)]
     if not any(code == 304 for _, code, _ in stores):
@@ -1380,7 +1516,7 @@ def rule_4(ctx: Ctx) -> None:
         lits = H.guard_literals(M, sn, extra)
         ctx.ob(R, f"status {code} only for GET/HEAD", (G, GL) in gs, f"`{norm(s)}` {'is' if (G, GL) in gs else 'is NOT'} dominated by `{norm(G.ast)}`", mc, s, f"status {code} gated")
         shown = [norm(e_)[:40] + ('' if l == 'T' else ' is false') for e_, l in lits]
-        nm = [e_ for e_, l in lits if is_irm(e_) and l == "F"]
+        nm = [e_ for e_, l in lits if says_unmodified(e_, l)]
         if not nm:
             # a condition that involves the call in a way that is not read as its truth value: not understood,
             # which is not the same as "not guarded"
@@ -1456,14 +1592,15 @@ def rule_4(ctx: Ctx) -> None:
                 if len(asg) != 1 or asg[0][1] is None:
                     continue
                 a, nn = H.strip_not(asg[0][1])
-            if isinstance(a, ast.Call) and Q.resolve(a.func) == WRAP:
-                calls_.append(a)
-                if l == ("F" if nn % 2 == 0 else "T"):
-                    unmod.append(a)
+            u = _irm_use(ctx, Q, a)
+            if u is not None:
+                calls_.append(u)
+                if l == ("F" if (nn + u.neg) % 2 == 0 else "T"):
+                    unmod.append(u)
         irm_ok = irm_ok and (absent or bool(unmod))
-        for a in calls_:
-            ok, fact = _irm_args(ctx, Q, a, False)
-            b = H.bind(a, repo.func(WRAP), bound=False)
+        for u in calls_:
+            ok, fact = _irm_args(ctx, Q, u, False)
+            b = u.args
             ok = ok and "environ" in b and astq.is_name(b["environ"], env_q)
             args_ok = args_ok and ok
             facts.append(fact)
@@ -2163,6 +2300,100 @@ def rule_8(ctx: Ctx) -> None:
 
 
 
+# ---------------------------------------------------------------------
+# R11.9 which Range headers parse_range_header reads, and as what (evaluated on a finite family)
+
+_SPEC_ALPHABET = "-+01"
+_SPEC_MAXLEN = 4
+
+
+def _spec_oracle(spec: str) -> list[tuple[int, int | None]] | None:
+    """RFC 9110 14.1.1 / 14.1.2 for one range-spec over sign, dash and digits: `first-[last]` with last >= first ->
+    [(first, last + 1 | None)], `-suffix` -> [(-suffix, None)], anything else is not a range-spec -> None"""
+    m = re.fullmatch(r"([0-9]+)-([0-9]*)", spec)
+    if m is not None:
+        first = int(m.group(1))
+        if m.group(2) == "":
+            return [(first, None)]
+        last = int(m.group(2))
+        return [(first, last + 1)] if last >= first else None
+    m = re.fullmatch(r"-([0-9]+)", spec)
+    if m is not None:
+        return [(-int(m.group(1)), None)]
+    return None
+
+
+def rule_9(ctx: Ctx) -> None:
+    """parse_range_header as a whole function (splitting, the item loop, the integer helper it calls), evaluated
+    statement by statement over constants by the Machine of _c06_helpers on every string of a finite family: what is
+    not a range-spec must come back as None (-> 416 by R11.6), what is one as exactly the range it denotes."""
+    R = "R11.9"
+    repo = ctx.repo
+    prh = repo.func("werkzeug.http.parse_range_header")
+    ctx.saw(prh)
+    rcls = H.class_of(repo, "werkzeug.datastructures.range.Range")
+    m = S6.Machine(repo, S6.TableFolder(repo))
+
+    def read(header: str):
+        return m.outcome(lambda: m.run(prh, [header]))
+
+    def want(ranges: list[tuple[int, int | None]] | None):
+        if ranges is None:
+            return None
+        try:
+            return S6.snapshot(m.run(rcls, ["bytes", [tuple(r) for r in ranges]]))
+        except S6.ProgramRaise as r:
+            raise AnalysisError(f"Range('bytes', {ranges}) raises {r.kind}: the constructor rejects a member of the value family")
+
+    def short(got) -> str:
+        if isinstance(got, tuple) and len(got) == 3 and got[0] == "<instance>":
+            return f"{got[1].rsplit('.', 1)[-1]}({', '.join(f'{k}={v!r}' for k, v in got[2])})"
+        return repr(got)
+
+    specs = [s_ for s_ in S6.samples(_SPEC_ALPHABET, _SPEC_MAXLEN) if s_]
+    bad_specs = [s_ for s_ in specs if _spec_oracle(s_) is None]
+    good_specs = [s_ for s_ in specs if _spec_oracle(s_) is not None]
+
+    def check(instance: str, construct: str, family: list[tuple[str, list | None]], what: str) -> int:
+        bad = None
+        for header, ranges in family:
+            got = read(header)
+            if got != want(ranges) and bad is None:
+                exp = "None (unparsable -> 416)" if ranges is None else f"Range('bytes', {ranges})"
+                bad = f"e.g. parse_range_header({header!r}) gives {short(got)}, expected {exp}"
+        ctx.ob(R, instance, bad is None, f"{len(family)} headers ({what}); {bad or 'all as expected'}", prh, prh.node, construct)
+        return len(family)
+
+    signed_last = [s_ for s_ in bad_specs if re.fullmatch(r"[0-9]+-[-+][0-9]+", s_)]
+    bad_specs = [s_ for s_ in bad_specs if s_ not in signed_last]
+    n = check(
+        "a last position written with a sign is not a position (`first--last`, `first-+last`)",
+        "signed last position",
+        [("bytes=" + s_, None) for s_ in signed_last],
+        "first-last with a '-' or '+' in front of the digits of last",
+    )
+    n += check(
+        "a single spec that is not `first-[last]` (last >= first) or `-suffix` is unparsable",
+        "malformed single spec",
+        [("bytes=" + s_, None) for s_ in bad_specs],
+        f"every string up to length {_SPEC_MAXLEN} over {sorted(_SPEC_ALPHABET)} that is not a range-spec: doubled / trailing / lone dashes, '+' signs, digits without a dash, last < first",
+    )
+    n += check(
+        "a well-formed single spec is read as the range it denotes",
+        "well-formed single spec",
+        [("bytes=" + s_, _spec_oracle(s_)) for s_ in good_specs],
+        f"every range-spec up to length {_SPEC_MAXLEN} over the same alphabet: first-last, first-, -suffix",
+    )
+    short_bad = [s_ for s_ in bad_specs if len(s_) <= 3]
+    n += check(
+        "one malformed spec makes the whole header unparsable, wherever it stands",
+        "malformed spec in a list",
+        [(f"bytes=0-0,{s_}", None) for s_ in short_bad] + [(f"bytes={s_},1-1", None) for s_ in short_bad],
+        "a malformed spec after / before a well-formed one",
+    )
+    ctx.floor(R, "Range headers evaluated", n, 400)
+
+
 RULES = {
     "R11.1": "each validator header reaches its own parameter; the ETags predicate applied to If-None-Match is weak|strong|star, to If-Match admits strong and '*', to the If-Range tag admits strong - each on the unquoted response ETag and entering the verdict with the right polarity; parse_etags files weak / strong / star members under the constructor parameter of that name",
     "R11.2": "truth table of sansio is_resource_modified (its CFG executed with every condition as an abstract boolean, the verdict carried as a value per path): whenever the response has an ETag and an ETag validator is evaluated - the If-Range tag when If-Range is in force, else If-Match, else If-None-Match (RFC 9110 13.2.2) - the answer is that comparison alone: 'not modified' iff the If-Range tag / If-None-Match matches, 'modified' iff If-Match admits; no date verdict or earlier verdict survives, whatever the other conditions",
@@ -2172,6 +2403,7 @@ RULES = {
     "R11.6": "each None from parse_range_header, range_for_length, to_content_range_header leads only to RequestedRangeNotSatisfiable and the value is used only after that check; send_file closes its file and re-raises on that path",
     "R11.7": "every non-None (start, stop) returned by Range.range_for_length is dominated by branch facts 0 <= start, start < stop, stop <= length on the returned values (inline or through a predicate whose true paths are enumerated) and by the bytes-unit, known-length and single-range tests; is_byte_range_valid for non-None arguments implies 0 <= start < stop and start < length",
     "R11.8": "_RangeWrapper: the attribute compared with the absolute end (start_byte + byte_range) is re-based to the body's absolute position (tell(), the seek result or the seek target) on every path from a seek of the body to the method's return",
+    "R11.9": "parse_range_header, evaluated as a whole function on every string up to length 4 over {'-', '+', '0', '1'} as the single range-spec of a bytes header (and on the malformed ones next to a well-formed spec): returns None for everything that is not `first-[last]` with last >= first or `-suffix` (so R11.6 turns it into 416), and exactly Range('bytes', [(first, last + 1 | None)]) / [(-suffix, None)] for what is",
 }
 
 
@@ -2198,3 +2430,4 @@ def run(ctx: Ctx) -> None:
     rule_6(ctx, P, S)
     rule_7(ctx)
     rule_8(ctx)
+    rule_9(ctx)
